@@ -56,6 +56,17 @@ def run(chk):
             cases.setdefault(v, c)
     for s in REJECT:
         cases[s] = [-1, -1, -1, -1]
+    # keywords with a letter replaced by a character outside Latin-1 that Unicode case mapping folds into it (KELVIN SIGN -> k, LONG S -> S,
+    # ANGSTROM SIGN, dotted / dotless i, full-width and mathematical letters): Qt converts the name to Latin-1 first, so none of them is a colour
+    FOLDS = {"k": ["\u212a"], "s": ["\u017f"], "i": ["\u0130", "\u0131"], "a": ["\u212b", "\uff41"], "e": ["\uff45", "\u0435"], "o": ["\u03bf", "\uff4f"], "r": ["\uff52"]}
+    for k in sorted(keys):
+        for ch, subs in FOLDS.items():
+            if ch in k:
+                for sub in subs:
+                    i = k.index(ch)
+                    for v in (k[:i] + sub + k[i + 1:], (k[:i] + sub + k[i + 1:]).upper() if sub not in ("\u0131",) else k[:i].upper() + sub + k[i + 1:].upper()):
+                        if v not in cases and not v.isascii():
+                            cases[v] = [-1, -1, -1, -1]
     strings = sorted(cases)
     n3 = sum(1 for s in strings if s.startswith("#") and len(s) == 4 and s == s.lower() and cases[s][0] >= 0)
     n4 = sum(1 for s in strings if s.startswith("#") and len(s) == 5 and s == s.lower() and cases[s][0] >= 0)
